@@ -641,6 +641,28 @@ def rule_clear(fx, rep):
         if not good:
             bad(f"resize/{fld}", f"the reallocating path of resize does not set `{fld}` to {show(want)}", rz)
     # PersistentState::reset / ucinewgame reach reset — checked under C12
+    # the same-size guard of resize compares the request with `self.size`: wherever a table is built with a slot vector sized
+    # for X, its `size` field must say X (a constructor that allocates for `size_mb` but records 0 makes the first `Hash 0` a
+    # no-op: the table is neither emptied nor shrunk)
+    for b in fx.fn_bodies():
+        if "transposition_table::TranspositionTable" not in norm(b.name) or "::tests::" in b.name:
+            continue
+        for bb, j, st in b.stmts():
+            rv = st.get("rv")
+            if not (st["k"] == "assign" and rv and rv["k"] == "agg" and rv.get("agg") == "adt" and norm(rv.get("adt", "")).endswith("TranspositionTable") and
+                    "size" in (rv.get("fields") or []) and "data" in rv["fields"]):
+                continue
+            e_data = b.expr(rv["ops"][rv["fields"].index("data")], expand_named=True, at=bb)
+            e_size = deep_strip(b.expr(rv["ops"][rv["fields"].index("size")], expand_named=True, at=bb))
+            calc = find_calls(e_data, "calculate_number_of_entries")
+            if not calc:
+                continue  # built empty (and sized by resize afterwards): the existing resize clauses apply
+            n += 1
+            good = show(deep_strip(calc[0][2][0])) == show(e_size)
+            rep.obligation(good)
+            if not good:
+                bad(f"{norm(b.name).split('::')[-1]}/size-field", f"`{b.name}` builds the slot vector for `{show(deep_strip(calc[0][2][0]))[:40]}` megabytes but records `size = {show(e_size)[:40]}`: resize's same-size "
+                    "guard then compares with the wrong size (a first `setoption name Hash value 0` is ignored: the table is neither emptied nor shrunk)", b)
     rep.rule("C19-CLEAR", n, 7, ok, "reset / resize empty the table and zero the counters")
 
 
@@ -898,6 +920,8 @@ def rule_pref(fx, rep):
 TTF = "src/engine/transposition_table.rs"
 STT = "src/engine/search/transposition.rs"
 MUTANTS = [
+    {"name": "the constructor allocates for size_mb but records size 0 (seed C19-10a)", "expect": "C19-CLEAR/new/size-field",
+     "edits": __import__("shared_mutants").edits_from_patch("seeded/C19-10a/patch.diff")},
     {"name": "an entry without a best move always gives way to one that has a move (seed C19-7a)", "expect": "C19-PREF/age=eq",
      "edits": [(STT, "        // Don't overwrite exact nodes\n        self.bound != NodeBound::Exact", "        if self.best_move.is_none() && new.best_move.is_some() {\n            return true;\n        }\n\n        // Don't overwrite exact nodes\n        self.bound != NodeBound::Exact")]},
     {"name": "hashfull sampled from the first thousand slots (seed C19-6b)", "expect": "C19-FILLIND/formula",
